@@ -408,6 +408,8 @@ func triageFuzzFailure(t *testing.T, sub string, raw json.RawMessage, name strin
 		case "unconfirmed":
 			H.Note("fuzz: %s exceeded the in-process watchdog but finished in a fresh process (%s)", name, sv.Detail)
 			return false
+		case "deferred":
+			return true
 		case "extreme":
 			saveObservation(sub, sv.Raw, sv.Detail)
 			H.Note("fuzz: %s is slow beyond the nesting bound (%s): not charged", name, sv.Detail)
